@@ -11,7 +11,8 @@
  *   Dereferencing an iterator yields a pair held INSIDE the iterator object (a local variable of the caller):
  *   pair.first = SM_site[k].Label, pair.second = &cur, cur = copy of SM_site[k] (CBMC cannot bound-check pointers
  *   into an unbounded array); operator[] through a temporary copy.  Exact for code that does not keep the Site
- *   reference beyond the iterator's lifetime and does not compare Site addresses.
+ *   reference beyond the iterator's lifetime and does not compare Site addresses; the Site of the ghost entry
+ *   is the stable object SM_gsite, so "returns THE site stored under the label" can be stated for the ghost key.
  *   GHOST data:
  *     glabel / gk   ONE ghost key: gk = its position or -1 if the map has no such key;
  *     SM_suf[0..n], SM_sq0..3[0..n]   suffix sums over the sites (spec functions from the property statement C18):
@@ -40,6 +41,7 @@
 #define SM_NMAX 65536L
 #define SM_CAP __CPROVER_constant_infinity_uint
 extern struct Lattice_Site SM_site[SM_CAP];
+extern struct Lattice_Site SM_gsite;     /* THE Site object of the ghost entry gk (stable address): content of SM_site[gk] */
 extern unsigned long SM_suf[SM_CAP], SM_sq0[SM_CAP], SM_sq1[SM_CAP], SM_sq2[SM_CAP], SM_sq3[SM_CAP];
 #define SM_label(k) (SM_site[k].Label)
 #define SM_orb(k) (SM_site[k].OrbitalSize)
@@ -61,7 +63,8 @@ static inline _Bool SiteMap_wf_nosums(SiteMap *m)
   return 0 <= m->n && m->n <= SM_NMAX && !m->sums &&
          -1 <= m->gk && m->gk < m->n &&
          SITEPOS(m->glabel) == (m->gk >= 0 ? m->gk : m->n) &&
-         (m->gk >= 0 ==> SM_label(m->gk) == m->glabel);
+         (m->gk >= 0 ==> (SM_label(m->gk) == m->glabel && SM_gsite.Label == m->glabel &&
+                          SM_gsite.OrbitalSize == SM_orb(m->gk) && SM_gsite.SpinSize == SM_spin(m->gk)));
 }
 /* type invariant with the ghost sums (without the lemma L1 below) */
 static inline _Bool SiteMap_wf_base(SiteMap *m)
@@ -73,7 +76,8 @@ static inline _Bool SiteMap_wf_base(SiteMap *m)
 #endif
          -1 <= m->gk && m->gk < m->n &&
          SITEPOS(m->glabel) == (m->gk >= 0 ? m->gk : m->n) &&
-         (m->gk >= 0 ==> SM_label(m->gk) == m->glabel);
+         (m->gk >= 0 ==> (SM_label(m->gk) == m->glabel && SM_gsite.Label == m->glabel &&
+                          SM_gsite.OrbitalSize == SM_orb(m->gk) && SM_gsite.SpinSize == SM_spin(m->gk)));
 }
 #define SM_SQSUM(k) (SM_sq0[k] + SM_sq1[k] + SM_sq2[k] + SM_sq3[k])
 /* LEMMA L1 (consequence of the definitions A4 under A5; proved by induction over k in harness
@@ -96,16 +100,16 @@ static inline _Bool SiteMap_wf(SiteMap *m)
 #define SiteMapIt_inc(it) ((it)->pos++, (it))
 #define op_ne_SiteMapIt_SiteMapIt(a, b) ((a)->pos != (b)->pos)
 #define op_eq_SiteMapIt_SiteMapIt(a, b) ((a)->pos == (b)->pos)
-#define SM_AX_Z(_k, sqz, _z) do { \
+#define SM_AX_Z(_k, sqz, _z) { \
     __CPROVER_assume(sqz[(_k) + 1] <= SM_TOTAL_MAX); \
     __CPROVER_assume(sqz[_k] == sqz[(_k) + 1] + (SM_spin(_k) > (_z) ? (unsigned long)SM_orb(_k) : 0UL)); \
-    __CPROVER_assume(sqz[_k] <= SM_TOTAL_MAX); } while (0)
+    __CPROVER_assume(sqz[_k] <= SM_TOTAL_MAX); }
 #ifdef SM_NO_SQ     /* harnesses that do not use the layer sums sqZ compile them out (fewer array reads) */
 #define SM_AX_SQ(_k) ((void)0)
 #else
-#define SM_AX_SQ(_k) do { SM_AX_Z(_k, SM_sq0, 0); SM_AX_Z(_k, SM_sq1, 1); SM_AX_Z(_k, SM_sq2, 2); SM_AX_Z(_k, SM_sq3, 3); } while (0)
+#define SM_AX_SQ(_k) { SM_AX_Z(_k, SM_sq0, 0) SM_AX_Z(_k, SM_sq1, 1) SM_AX_Z(_k, SM_sq2, 2) SM_AX_Z(_k, SM_sq3, 3) }
 #endif
-#define SM_ASSUME_AT(_m, _k) do { \
+#define SM_ASSUME_AT(_m, _k) { \
   if ((_m)->gk >= 0 && (_k) < (_m)->gk) __CPROVER_assume(SM_label(_k) < SM_label((_m)->gk));   /* A2 */ \
   if ((_m)->gk >= 0 && (_k) > (_m)->gk) __CPROVER_assume(SM_label(_k) > SM_label((_m)->gk)); \
   if ((_m)->gk < 0) __CPROVER_assume(SM_label(_k) != (_m)->glabel); \
@@ -115,28 +119,34 @@ static inline _Bool SiteMap_wf(SiteMap *m)
     __CPROVER_assume(SM_suf[(_k) + 1] <= SM_TOTAL_MAX); \
     __CPROVER_assume(SM_suf[_k] == SM_suf[(_k) + 1] + (unsigned long)SM_orb(_k) * (unsigned long)SM_spin(_k)); \
     __CPROVER_assume(SM_suf[_k] <= SM_TOTAL_MAX); \
-    SM_AX_SQ(_k); \
+    SM_AX_SQ(_k) \
   } \
-  } while (0)
+  }
 #define SiteMapIt_arrow(it) ({ \
   __CPROVER_assert(0 <= (it)->pos && (it)->pos < (it)->m->n, "std::map iterator dereferenced only before end()"); \
-  SM_ASSUME_AT((it)->m, (it)->pos); \
-  (it)->cur = SM_site[(it)->pos]; (it)->pair.first = SM_label((it)->pos); (it)->pair.second = &(it)->cur; \
+  SM_ASSUME_AT((it)->m, (it)->pos) \
+  (it)->cur = SM_site[(it)->pos]; (it)->pair.first = SM_label((it)->pos); (it)->pair.second = ((it)->pos == (it)->m->gk) ? &SM_gsite : &(it)->cur; \
   &(it)->pair; })
 /* members of the iterator written by a dereference (for assigns clauses of loops that do not advance it) */
 #define SM_IT_CURSOR(it) (it).pair, (it).cur
 #define SiteMapIt_mul(it) SiteMapIt_arrow(it)
 /* find: the position of the key (A3), end() if absent */
-#define SiteMap_find(m_, l_) ({ \
-  __CPROVER_assume(0 <= SITEPOS(l_) && SITEPOS(l_) <= (m_)->n); \
-  if (SITEPOS(l_) < (m_)->n) __CPROVER_assume(SM_label(SITEPOS(l_)) == (l_)); \
-  (SiteMapIt){ (m_), SITEPOS(l_) }; })
+#define SiteMap_find(m_, l_) (*(__CPROVER_assume(0 <= SITEPOS(l_) && SITEPOS(l_) <= (m_)->n), \
+  __CPROVER_assume(SITEPOS(l_) >= (m_)->n || SM_label(SITEPOS(l_)) == (l_)), \
+  (SiteMapIt[1]){ { (m_), SITEPOS(l_) } }))        /* an lvalue: callers take its address */
+#ifdef SM_INSERT_MODEL
+/* operator[] as used by Lattice::addSite (`Sites[label] = S`): the reference to the mapped pointer of `label`,
+ * inserted if absent: ONE cell, the key is recorded (ASSUMED: std::map::operator[] returns the cell of that key) */
+struct Lattice_Site *SM_ins_slot; label_t SM_ins_label; unsigned long SM_ins_calls;
+#define SiteMap_at(m_, l_) (SM_ins_label = (l_), SM_ins_calls++, &SM_ins_slot)
+#else
 /* operator[]: reference to the mapped pointer (a temporary cell holding &SM_site[position]) */
 #define SiteMap_at(m_, l_) ({ \
   __CPROVER_assume(0 <= SITEPOS(l_) && SITEPOS(l_) <= (m_)->n); \
   __CPROVER_assert(SITEPOS(l_) < (m_)->n, "std::map operator[] used only with an existing key (else it inserts a null Site*)"); \
-  if (SITEPOS(l_) < (m_)->n) { __CPROVER_assume(SM_label(SITEPOS(l_)) == (l_)); SM_ASSUME_AT((m_), SITEPOS(l_)); } \
+  if (SITEPOS(l_) < (m_)->n) { __CPROVER_assume(SM_label(SITEPOS(l_)) == (l_)); SM_ASSUME_AT((m_), SITEPOS(l_)) } \
   &(struct Lattice_Site *){ SITEPOS(l_) < (m_)->n ? &(struct Lattice_Site[1]){ SM_site[SITEPOS(l_)] }[0] : (struct Lattice_Site *)0 }; })
+#endif
 
 /* proof of lemma L1 by induction over k = n..0 (checked by CBMC: harness h_lemma_sitemap_sqsum in specs/indexclass.c) */
 #ifndef SM_NO_SQ
@@ -152,7 +162,7 @@ __CPROVER_ensures(SM_SQSUM(0) == SM_suf[0])
   __CPROVER_decreases(k)
   {
     k--;
-    SM_ASSUME_AT(m, k);     /* the definitions A4 and the domain restriction A5 at site k */
+    SM_ASSUME_AT(m, k)      /* the definitions A4 and the domain restriction A5 at site k */
   }
 }
 #endif
